@@ -100,6 +100,15 @@ CLAIMED = {
                 note=TB + "; write_context_t.version is constant during a write (checked: stored only by cif_write); one named "
                      "exemption: text of unquoted numbers",
                 tech="typestate dataflow (validated-set) + forwarder summaries + guard dominance + table agreement"),
+    "C14": dict(level="other", ref="5 C14",
+                text="Finite-domain abstract interpretation of cif_walk and its five helpers: every handler call and child walk is split "
+                     "into six answer classes (CONTINUE, SKIP_CURRENT, SKIP_SIBLINGS, END, positive, other negative), flags record the "
+                     "answers, and reachability of callback sites under the flags decides the directive obligations; a run with all "
+                     "handlers continuing decides start/children/end order (frames before loops); handle arrays and elements are "
+                     "released on every path. That the SQL enumerations yield each element once is not decided.",
+                note=TB + "; a child walk is assumed to return any answer class (each helper is checked under that assumption); absent "
+                     "handlers are outside the property",
+                tech="finite-domain abstract interpretation (exhaustive) + must-pass-through release checks"),
     "C15": dict(level="other", ref="5 C15",
                 text="Context-sensitive abstract interpretation of the parser productions over the skip depth (interval domain; contexts "
                      "= nullness of storage parameters x entry depth, discovered from parse_cif in storing and syntax-only mode): "
